@@ -2,10 +2,15 @@ package tgen
 
 import (
 	"encoding/json"
+	"fmt"
 	"math/rand"
 	"testing"
 
 	"github.com/onflow/cadence/sema"
+	"pgregory.net/rapid"
+
+	"verif/lib/host"
+	"verif/lib/prog"
 )
 
 // TestUniverses: the generated universes check, have every kind of nominal
@@ -59,6 +64,42 @@ func TestUniverses(t *testing.T) {
 			if err != nil || !back.Equal(ty) || back.ID() != ty.ID() {
 				t.Fatalf("codec: %s -> %s -> %v (%v)", ty.ID(), b, back, err)
 			}
+		}
+	}
+}
+
+// TestRapidForm: the rapid form of the generator produces valid types (and can
+// be shrunk by rapid): every drawn type survives the codec round trip.
+func TestRapidForm(t *testing.T) {
+	u := NewUniverse(0)
+	rapid.Check(t, func(rt *rapid.T) {
+		ty := RapidType(u, Options{MaxDepth: 3}).Draw(rt, "type")
+		back, err := u.Decode(Encode(ty))
+		if err != nil || !back.Equal(ty) {
+			rt.Fatalf("codec: %s -> %v (%v)", ty.ID(), back, err)
+		}
+	})
+}
+
+// TestEntitlementHistory: the reusable entitlement program runs on both engines.
+func TestEntitlementHistory(t *testing.T) {
+	for seed := int64(0); seed < 6; seed++ {
+		h, err := EntitlementHistory(seed)
+		if err != nil {
+			t.Fatalf("seed %d: %v", seed, err)
+		}
+		var vals []string
+		for _, eng := range host.Engines {
+			res, _ := prog.Run(nil, h, host.Options{Engine: eng})
+			for i, r := range res {
+				if r.Err != nil || r.Panic != nil {
+					t.Fatalf("seed %d step %d on %v: %v %v\n%s", seed, i, eng, r.Err, r.Panic, h)
+				}
+			}
+			vals = append(vals, fmt.Sprint(res[len(res)-1].Value))
+		}
+		if vals[0] != vals[1] {
+			t.Fatalf("seed %d: engines differ: %v", seed, vals)
 		}
 	}
 }
